@@ -88,7 +88,7 @@ def caches_sound(db):
     from barril.units.unit_database import UnitsError
 
     bad = []
-    for (cat, unit), valid in list(db._category_unit_valid.items()):
+    for (cat, unit), valid in list(getattr(db, "_category_unit_valid", {}).items()):
         try:
             info = db.GetCategoryInfo(cat)
             db.CheckQuantityTypeUnit(info.quantity_type, unit)
@@ -97,7 +97,7 @@ def caches_sound(db):
             want = False
         if bool(valid) != want:
             bad.append("memoised verdict (%r,%r)=%r but a fresh check says %r" % (cat, unit, valid, want))
-    for key, q in list(db.quantities_cache.items()):
+    for key, q in list(getattr(db, "quantities_cache", {}).items()):
         try:
             if q.IsDerived():
                 continue
